@@ -8,7 +8,8 @@ RULE = ("every evolventDensity m in 2..12 x every dimension N in 2..5 x boxes of
         "global-phase trial point must satisfy ((y-lower)/side)*2^m - 1/2 = integer in [0,2^m) within a rounding-derived tolerance <= 4e-6 (cell centres of different "
         "densities never coincide, so membership in the configured grid excludes every other density). Non-trivial: >= 10 trials; "
         "distinct = (N, m, box kind, family, number of distinct cells visited).")
-ASSUMPTIONS = ["|lower|/side <= 1e6: rounding of the affine map stays below 4e-6 cell widths for m <= 12 (tolerance max(1e-6, 8 ulp(max|bound|)/side*2^m))", "refineSolution=False (refinement leaves the grid by design)"]
+ASSUMPTIONS = ["refinement evaluations themselves leave the grid by design; the global-phase trials made before AND after a refinement are checked",
+               "|lower|/side <= 1e6: rounding of the affine map stays below 4e-6 cell widths for m <= 12 (tolerance max(1e-6, 8 ulp(max|bound|)/side*2^m))", "refineSolution=False (refinement leaves the grid by design)"]
 
 
 def cases(tier, seed):
@@ -25,7 +26,8 @@ def cases(tier, seed):
                 out.append({"N": N, "lower": lo, "upper": hi, "box": kind, "obj": obj, "r": float(rng.choice([2.0, 3.0, 4.5])),
                             "eps": max(2.0 ** (-m), scenario.eps_floor(N, m)) * 1.01, "iters": int(rng.choice([40, 80, 150])) if tier == "quick" else int(rng.choice([60, 150, 300])),
                             "m": m, "refine": False,
-                            "pattern": [["solve"]] if rep % 2 == 0 else [["iter", 7], ["solve"]],
+                            "pattern": ([["solve"]] if rep % 2 == 0 else [["iter", 7], ["solve"]]) if (rep + m + N) % 3 else
+                                       [["iter", 9], ["local", 6], ["iter", 25], ["solve"]],      # the global search goes on after a local refinement
                             "params_how": ["ctor", "assign", "positional", "assign"][(rep + m) % 4],
                             "m_type": ["int", "np.int64", "int", "np.int32", "int", "np.intp", "np.uint8"][(rep * 3 + m + N) % 7]})
     # one SolverParameters object reused for a sweep over densities: the user changes p.evolventDensity between Solvers
@@ -109,6 +111,9 @@ def run_case(scn):
     grid_violations(glog, lo, side, m, dens, viol, cells)
     obs = {"runs": 1, "trials": len(glog), "distinct_cells": len(cells), "densities": [m], "dims": [scn["N"]],
            "params_" + scn.get("params_how", "ctor"): 1, "density_type_" + scn.get("m_type", "int"): 1}
+    ll = [e["i"] for e in t.log if e["ph"] == "l"]
+    if ll:
+        obs["global_trials_after_a_refinement"] = len([e for e in glog if e["i"] > min(ll)])
     nt = len(glog) >= 10
     return {"violations": viol, "obs": obs, "nontrivial": nt,
             "key": "%d|%d|%s|%s|%d" % (scn["N"], m, scn["box"], scn["obj"]["fam"], len(cells)) if nt else None,
@@ -121,7 +126,7 @@ def finalize(obs, tier, stats):
     if obs.get("trials", 0) < 3000:
         return "too few trials", {}
     miss = [k for k in ("params_ctor", "params_assign", "params_positional", "sweeps_over_one_parameters_object", "density_type_int",
-                        "density_type_np.int64", "density_type_np.int32", "density_type_np.intp", "density_type_np.uint8") if not obs.get(k)]
+                        "density_type_np.int64", "density_type_np.int32", "density_type_np.intp", "density_type_np.uint8", "global_trials_after_a_refinement") if not obs.get(k)]
     if miss:
         return "ways of configuring the density never exercised: %s" % miss, {}
     return None, {}
